@@ -35,6 +35,15 @@ def r05_4(ctx):
                         r.exc.args and ast.unparse(r.exc.args[0]) == job + '._timeout' for r in raised)
         ctx.ob('R05.4', 'on_hard_timeout:failure-is-TimeLimitExceeded(limit)', ok, fi, c,
                'the failure recorded is a TimeLimitExceeded carrying the job\'s limit')
+    # "a job that finishes inside its limit is never timed out": whether the job is finished is asked when the action
+    # is taken, not when the pass began -- the pass can be held up for seconds by an earlier job (slow timeout
+    # callback, the 0.1 s wait after TERM), and the worker recorded on the finished job may run another job by then
+    acts = [n for (n, c) in kills] + [n for (n, c) in q.calls(fi, job + '.handle_timeout')]
+    ok = all(q.has_guard(fi, n, job + '.ready()', False) for n in acts)
+    ctx.ob('R05.4', 'on_hard_timeout:not-for-a-job-that-finished-meanwhile', ok, fi, acts[0] if acts else None,
+           'kill and callback are under `not job.ready()`, tested in the handler itself' if ok else
+           'the handler acts on a job without asking whether it has finished since the pass took its snapshot: the '
+           'worker recorded on it -- by now running somebody else\'s job -- is terminated')
     for (kn, kc) in kills:
         ok, w = cfg.dominated_by(kn, [n for (n, c) in sets], completed=True)
         ctx.ob('R05.4', 'on_hard_timeout:fail-before-kill', ok, fi, kn,
@@ -183,6 +192,8 @@ def r05_7(ctx, rule='R05.7'):
 
 def run(ctx):
     helpers_hold_live_objects(ctx, 'R05.8', only=('TimeoutHandler', 'ResultHandler.cache'), floor=3)
+    from .timelimits import scan_period
+    scan_period(ctx, 'R05.9')
     r05_7(ctx)
     r04_1(ctx, site=_scanner_side, floor=5)
     r05_1(ctx)
